@@ -6,7 +6,7 @@ Local Open Scope Z_scope.
 
 Ltac unf :=
   cbv [rm_op run_rm
-       ru_lsquare ru_laddmul ru_laddmul_c ru_mul_low ru_to_high ru_expmod ru_divr
+       ru_lsquare ru_laddmul ru_laddmul_c ru_mul_low ru_to_high ru_expmod ru_expmod_l ru_divr
        ru_normalization ru_lshift ru_lshift_wide ru_rshift ru_rshift1 ru_div_2_1
        rm_add rm_addin rm_sub rm_sub_old rm_subin rm_neg rm_negin
        rmg_reduc_wide rmg_reduc rmg_to_mg rm_reduc_wide rm_mul rm_mulin rm_square rm_squarein rm_inv rm_invin
@@ -23,20 +23,21 @@ Ltac split_eqb :=
 Ltac solve_lazy := step; repeat (first [split_eqb | split_cond | split_pair]; step); try reflexivity.
 Ltac go := unf; solve_lazy; fin.
 
-Ltac each_op30 n := cases_nat 30%nat n; try lia.
+Ltac each_op30 n := cases_nat 31%nat n; try lia.
 
 Lemma rm_pure_noexp : forall mg W p p1 r w n, (n <= 14)%nat -> n <> 8%nat -> Pure_dest (rm_op mg W p p1 r w n).
 Proof.
   intros mg W p p1 r w n Hn N8 h a b c d g. each_op30 n; try (exfalso; apply N8; reflexivity);
   destruct mg; go.
 Qed.
-Lemma rm_inplace : forall mg W p p1 r w n, (15 <= n)%nat -> Inplace (rm_op mg W p p1 r w n).
+Lemma rm_inplace_noexp : forall mg W p p1 r w n, (15 <= n)%nat -> n <> 30%nat -> Inplace (rm_op mg W p p1 r w n).
 Proof.
-  intros mg W p p1 r w n Hn h a b c d. each_op30 n; destruct mg; go.
+  intros mg W p p1 r w n Hn N30 h a b c d. each_op30 n; try (exfalso; apply N30; reflexivity); destruct mg; go.
 Qed.
-Lemma rm_frame_noexp : forall mg W p p1 r w n, n <> 8%nat -> Frame (rm_op mg W p p1 r w n).
+Lemma rm_frame_noexp : forall mg W p p1 r w n, n <> 8%nat -> n <> 30%nat -> Frame (rm_op mg W p p1 r w n).
 Proof.
-  intros mg W p p1 r w n N8 h a b c d l N. each_op30 n; try (exfalso; apply N8; reflexivity);
+  intros mg W p p1 r w n N8 N30 h a b c d l N.
+  each_op30 n; try (exfalso; apply N8; reflexivity); try (exfalso; apply N30; reflexivity);
   destruct mg; go.
 Qed.
 
@@ -101,6 +102,288 @@ Section ExpMGA.
   Qed.
 End ExpMGA.
 
+(* ------------------------------------------------------------------ exp(a, b, const ruint<K>& c) of rmint<K,MGA> *)
+Lemma loc_eqb_refl : forall x, loc_eqb x x = true.
+Proof. destruct x; cbn [loc_eqb]; [apply Pos.eqb_refl | apply Nat.eqb_refl]. Qed.
+Lemma loc_eqb_neq : forall x y, x <> y -> loc_eqb x y = false.
+Proof.
+  intros [a|n] [b|m] N; cbn [loc_eqb]; try reflexivity.
+  - apply Pos.eqb_neq. intro E. apply N. rewrite E. reflexivity.
+  - apply Nat.eqb_neq. intro E. apply N. rewrite E. reflexivity.
+Qed.
+Lemma upd_same : forall h l v, upd h l v l = v.
+Proof. intros. unfold upd. rewrite loc_eqb_refl. reflexivity. Qed.
+Lemma upd_other : forall h l v x, x <> l -> upd h l v x = h x.
+Proof. intros. unfold upd. rewrite loc_eqb_neq by assumption. reflexivity. Qed.
+
+(* symbolic execution over abstract locations: the store operations stay folded, reads are resolved by
+   upd_same / upd_other *)
+Ltac xrun :=
+  cbv [exec value bind ret load stor rd when skip fst snd
+       ru_copy ru_lmul ru_lsquare ru_mul_low ru_laddmul_c ru_ge ru_sub
+       rmg_reduc_wide rm_reduc_wide rm_mul rm_square].
+Ltac xupd :=
+  repeat first [ rewrite upd_same
+               | rewrite upd_other by first [assumption | discriminate | apply not_eq_sym; assumption] ].
+
+Section ExpW.
+  Variables W p p1 r : Z.
+  (* Montgomery product: the value mul(a, b, c) leaves in a, as a function of the values of b and c *)
+  Definition mgmul (x y : Z) : Z :=
+    let t := x * y in
+    let a0 := ((t mod W) * p1) mod W in
+    let s := a0 * p + t in
+    let hi := (s / W) mod W in
+    if (W <=? s / W) || (p <=? hi) then (hi - p) mod W else hi.
+
+  Lemma mul_dest : forall x y z h, exec (rm_mul W true p p1 x y z) h x = mgmul (h y) (h z).
+  Proof.
+    intros. unfold mgmul. xrun. xupd.
+    match goal with |- context [if ?c then _ else _] => destruct c end; xupd; reflexivity.
+  Qed.
+  Lemma mul_frame : forall x y z h l, l <> x -> l <> T 0 -> l <> T 10 ->
+    exec (rm_mul W true p p1 x y z) h l = h l.
+  Proof.
+    intros. xrun. xupd.
+    match goal with |- context [if ?c then _ else _] => destruct c end; xupd; reflexivity.
+  Qed.
+  Lemma sq_dest : forall x y h, exec (rm_square W true p p1 x y) h x = mgmul (h y) (h y).
+  Proof.
+    intros. unfold mgmul. xrun. xupd.
+    match goal with |- context [if ?c then _ else _] => destruct c end; xupd; reflexivity.
+  Qed.
+  Lemma sq_frame : forall x y h l, l <> x -> l <> T 0 -> l <> T 10 ->
+    exec (rm_square W true p p1 x y) h l = h l.
+  Proof.
+    intros. xrun. xupd.
+    match goal with |- context [if ?c then _ else _] => destruct c end; xupd; reflexivity.
+  Qed.
+
+  (* a step that writes only the destination U q and the locals T 0, T 10 *)
+  Definition Fr (q : positive) (h h' : store) : Prop :=
+    forall l, l <> U q -> l <> T 0 -> l <> T 10 -> h' l = h l.
+  Lemma Fr_refl : forall q h, Fr q h h.
+  Proof. intros q h l _ _ _. reflexivity. Qed.
+  Lemma Fr_trans : forall q h1 h2 h3, Fr q h1 h2 -> Fr q h2 h3 -> Fr q h1 h3.
+  Proof. intros q h1 h2 h3 A B l N1 N2 N3. rewrite (B l N1 N2 N3). apply A; assumption. Qed.
+
+  Lemma G_neq_U : forall i q, G i <> U q.   Proof. intros. discriminate. Qed.
+  Lemma G_neq_T0 : forall i, G i <> T 0.    Proof. intros i E. injection E. lia. Qed.
+  Lemma G_neq_T10 : forall i, G i <> T 10.  Proof. intros i E. injection E. lia. Qed.
+  Lemma G_inj : forall i j, i <> j -> G i <> G j.
+  Proof. intros i j N E. injection E. lia. Qed.
+
+  (* ---- the table: g[0] = r, g[i] = g[i-1] * b *)
+  Fixpoint tabv (vb : Z) (i : nat) : Z :=
+    match i with O => r | S k => mgmul (tabv vb k) vb end.
+
+  Lemma table_spec : forall n b h, (forall i, b <> G i) -> b <> T 0 -> b <> T 10 -> h (G 0) = r ->
+    let h' := exec (rmg_table W true p p1 n b) h in
+    (forall i, (i <= n)%nat -> h' (G i) = tabv (h b) i) /\
+    (forall l, (forall i, (1 <= i <= n)%nat -> l <> G i) -> l <> T 0 -> l <> T 10 -> h' l = h l).
+  Proof.
+    induction n as [|n IH]; intros b h B1 B2 B3 H0; cbn [rmg_table].
+    - split.
+      + intros i Hi. assert (i = O) by lia. subst i. exact H0.
+      + intros. reflexivity.
+    - cbv zeta. rewrite exec_seq. destruct (IH b h B1 B2 B3 H0) as [I1 I2]. cbv zeta in I1, I2.
+      set (h1 := exec (rmg_table W true p p1 n b) h) in *.
+      split.
+      + intros i Hi. destruct (Nat.eq_dec i (S n)) as [->|N].
+        * rewrite mul_dest. cbn [tabv]. rewrite (I1 n) by lia. rewrite (I2 b (fun i _ => B1 i) B2 B3). reflexivity.
+        * rewrite mul_frame; [apply I1; lia | apply G_inj; assumption | apply G_neq_T0 | apply G_neq_T10].
+      + intros l L1 L2 L3. rewrite mul_frame; [apply I2; [intros i Hi; apply L1; lia | assumption | assumption]
+                                              | apply L1; lia | assumption | assumption].
+  Qed.
+
+  (* ---- one window, the windows of a limb, the limbs *)
+  Definition sq (v : Z) : Z := mgmul v v.
+  Definition winv (vb va x : Z) (j : nat) : Z := sq (sq (sq (sq (mgmul va (tabv vb (win_of x j)))))).
+  Fixpoint winsv (vb : Z) (n : nat) (va x : Z) : Z :=
+    match n with O => va | S j => winsv vb j (winv vb va x j) x end.
+  Fixpoint wins1v (vb : Z) (n : nat) (va x : Z) : Z :=
+    match n with O => va | S j => wins1v vb j (winv vb va x (S j)) x end.
+  Fixpoint limbsv (vb : Z) (n : nat) (va ve : Z) : Z :=
+    match n with O => va | S i => limbsv vb i (winsv vb NB_WIN va (limb_of ve (S i))) ve end.
+  (* the value exp(a, b, c) leaves in a: a function of the VALUES of b and c only *)
+  Definition expw_pure (nl : nat) (vb ve : Z) : Z :=
+    let va := limbsv vb (nl - 1) r ve in
+    let x := limb_of ve 0 in
+    mgmul (wins1v vb (NB_WIN - 1) va x) (tabv vb (win_of x 0)).
+
+  Definition Tab (vb : Z) (h : store) : Prop := forall i, (i <= 15)%nat -> h (G i) = tabv vb i.
+  Lemma Tab_Fr : forall vb q h h', Fr q h h' -> Tab vb h -> Tab vb h'.
+  Proof.
+    intros vb q h h' F Tb i Hi. rewrite (F (G i) (G_neq_U i q) (G_neq_T0 i) (G_neq_T10 i)). apply Tb. exact Hi.
+  Qed.
+  Lemma win_of_le : forall x j, (win_of x j <= 15)%nat.
+  Proof.
+    intros. unfold win_of.
+    pose proof (Z.mod_pos_bound (x / 2 ^ (4 * Z.of_nat j)) 16 eq_refl). lia.
+  Qed.
+
+  Lemma win_spec : forall vb q x j h, Tab vb h ->
+    let h' := exec (rmg_win W true p p1 (U q) x j) h in
+    h' (U q) = winv vb (h (U q)) x j /\ Fr q h h'.
+  Proof.
+    intros vb q x j h Tb. cbv zeta. unfold rmg_win. rewrite !exec_seq. split.
+    - rewrite !sq_dest, mul_dest. rewrite (Tb _ (win_of_le x j)). reflexivity.
+    - intros l N1 N2 N3. rewrite !sq_frame, mul_frame by assumption. reflexivity.
+  Qed.
+  Lemma wins_spec : forall vb q x n h, Tab vb h ->
+    let h' := exec (rmg_wins W true p p1 n (U q) x) h in
+    h' (U q) = winsv vb n (h (U q)) x /\ Fr q h h'.
+  Proof.
+    intros vb q x. induction n as [|n IH]; intros h Tb; cbn [rmg_wins winsv]; cbv zeta.
+    - split; [reflexivity | apply Fr_refl].
+    - rewrite exec_seq. destruct (win_spec vb q x n h Tb) as [V F]. cbv zeta in V, F.
+      destruct (IH _ (Tab_Fr vb q _ _ F Tb)) as [V2 F2]. cbv zeta in V2, F2.
+      split; [rewrite V2, V; reflexivity | eapply Fr_trans; eassumption].
+  Qed.
+  Lemma wins1_spec : forall vb q x n h, Tab vb h ->
+    let h' := exec (rmg_wins1 W true p p1 n (U q) x) h in
+    h' (U q) = wins1v vb n (h (U q)) x /\ Fr q h h'.
+  Proof.
+    intros vb q x. induction n as [|n IH]; intros h Tb; cbn [rmg_wins1 wins1v]; cbv zeta.
+    - split; [reflexivity | apply Fr_refl].
+    - rewrite exec_seq. destruct (win_spec vb q x (S n) h Tb) as [V F]. cbv zeta in V, F.
+      destruct (IH _ (Tab_Fr vb q _ _ F Tb)) as [V2 F2]. cbv zeta in V2, F2.
+      split; [rewrite V2, V; reflexivity | eapply Fr_trans; eassumption].
+  Qed.
+  Lemma exec_load : forall l (f : Z -> M unit) h, exec (v <- load l ;; f v) h = exec (f (h l)) h.
+  Proof. intros. reflexivity. Qed.
+  (* the exponent object c is not written by the loop: it is read with its initial value at every limb *)
+  Lemma limbs_spec : forall vb q c n h, c <> U q -> c <> T 0 -> c <> T 10 -> Tab vb h ->
+    let h' := exec (rmg_limbs W true p p1 n (U q) c) h in
+    h' (U q) = limbsv vb n (h (U q)) (h c) /\ Fr q h h'.
+  Proof.
+    intros vb q c. induction n as [|n IH]; intros h C1 C2 C3 Tb; cbn [rmg_limbs limbsv]; cbv zeta.
+    - split; [reflexivity | apply Fr_refl].
+    - rewrite exec_load, exec_seq.
+      destruct (wins_spec vb q (limb_of (h c) (S n)) NB_WIN h Tb) as [V F]. cbv zeta in V, F.
+      destruct (IH _ C1 C2 C3 (Tab_Fr vb q _ _ F Tb)) as [V2 F2]. cbv zeta in V2, F2.
+      split; [rewrite V2, V, (F c C1 C2 C3); reflexivity | eapply Fr_trans; eassumption].
+  Qed.
+
+  Lemma exec_copy_K : forall l z h, exec (ru_copy l (K z)) h = upd h l z.
+  Proof. reflexivity. Qed.
+  Lemma exec_copy_L : forall l x h, exec (ru_copy l (L x)) h = upd h l (h x).
+  Proof. reflexivity. Qed.
+
+  (* the body with the exponent read from an object c that is not the destination (nor a local of the body) *)
+  Lemma expw_body_spec : forall nl q a c h,
+    c <> U q -> c <> T 0 -> c <> T 10 -> (forall i, (i <= 15)%nat -> c <> G i) ->
+    let h' := exec (rmg_expw_body W true p p1 r nl (U q) (U a) c) h in
+    h' (U q) = expw_pure nl (h (U a)) (h c) /\ (forall l, l <> q -> h' (U l) = h (U l)).
+  Proof.
+    intros nl q a c h C1 C2 C3 C4. cbv zeta. unfold rmg_expw_body.
+    rewrite exec_seq, exec_copy_K. set (h0 := upd h (G 0) r).
+    rewrite exec_seq.
+    assert (B1 : forall i, U a <> G i) by (intros; discriminate).
+    assert (B2 : U a <> T 0) by discriminate. assert (B3 : U a <> T 10) by discriminate.
+    destruct (table_spec 15 (U a) h0 B1 B2 B3 (upd_same h (G 0) r)) as [T1 T2]. cbv zeta in T1, T2.
+    set (h1 := exec (rmg_table W true p p1 15 (U a)) h0) in *.
+    assert (Ea : h0 (U a) = h (U a)) by (unfold h0; apply upd_other; discriminate).
+    rewrite Ea in T1.
+    rewrite exec_seq, exec_copy_K. set (h2 := upd h1 (U q) r).
+    assert (Tb2 : Tab (h (U a)) h2).
+    { intros i Hi. unfold h2. rewrite upd_other by discriminate. apply T1. exact Hi. }
+    assert (Ec : h2 c = h c).
+    { unfold h2. rewrite upd_other by assumption. rewrite T2; [|intros i Hi; apply C4; lia|assumption|assumption].
+      unfold h0. apply upd_other. apply C4. lia. }
+    rewrite exec_seq.
+    destruct (limbs_spec (h (U a)) q c (nl - 1) h2 C1 C2 C3 Tb2) as [V3 F3]. cbv zeta in V3, F3.
+    set (h3 := exec (rmg_limbs W true p p1 (nl - 1) (U q) c) h2) in *.
+    assert (Tb3 : Tab (h (U a)) h3) by (eapply Tab_Fr; eassumption).
+    assert (Ec3 : h3 c = h c) by (rewrite (F3 c C1 C2 C3); exact Ec).
+    rewrite exec_load, Ec3, exec_seq.
+    destruct (wins1_spec (h (U a)) q (limb_of (h c) 0) (NB_WIN - 1) h3 Tb3) as [V4 F4]. cbv zeta in V4, F4.
+    set (h4 := exec (rmg_wins1 W true p p1 (NB_WIN - 1) (U q) (limb_of (h c) 0)) h3) in *.
+    assert (Tb4 : Tab (h (U a)) h4) by (eapply Tab_Fr; eassumption).
+    split.
+    - rewrite mul_dest, V4, V3, Ec, (Tb4 _ (win_of_le _ _)).
+      unfold h2 at 1. rewrite upd_same. reflexivity.
+    - intros l N.
+      assert (N1 : U l <> U q) by (intro E; apply N; injection E; trivial).
+      rewrite mul_frame by (assumption || discriminate).
+      rewrite (F4 (U l)), (F3 (U l)) by (assumption || discriminate).
+      unfold h2. rewrite upd_other by assumption.
+      rewrite T2 by (intros; discriminate). unfold h0. apply upd_other. discriminate.
+  Qed.
+End ExpW.
+
+(* the value left by exp(a, b, c): MGA the windowed product above, MGI exp_mod *)
+Definition expw_val (mg : bool) (W p p1 r : Z) (nl : nat) (vb ve : Z) : Z :=
+  if mg then expw_pure W p p1 r nl vb ve else expmod vb ve p.
+
+Definition Expw_body := Z -> bool -> Z -> Z -> Z -> nat -> loc -> loc -> loc -> M unit.
+(* destination q, base a, exponent object e: ANY coincidence (q = a, q = e: exp(x, b, x.Value), a = e, all equal) leaves in q
+   what the call on three distinct objects holding the same values leaves, whatever q held (g); nothing else changes *)
+Definition Expw_alias_free (f : Expw_body) : Prop :=
+  forall mg W p p1 r nl (h : store) (q a e : positive),
+    let h' := exec (f W mg p p1 r nl (U q) (U a) (U e)) h in
+    (forall g, h' (U q) = exec (f W mg p p1 r nl (U 1) (U 2) (U 3)) (mk4 1 2 3 4 g (h (U a)) (h (U e)) 0) (U 1)) /\
+    (forall l, l <> q -> h' (U l) = h (U l)).
+
+Lemma rm_expw_value : forall mg W p p1 r nl (h : store) (q a e : positive),
+  let h' := exec (rm_expw W mg p p1 r nl (U q) (U a) (U e)) h in
+  h' (U q) = expw_val mg W p p1 r nl (h (U a)) (h (U e)) /\ (forall l, l <> q -> h' (U l) = h (U l)).
+Proof.
+  intros mg W p p1 r nl h q a e. cbv zeta. destruct mg; cbv [rm_expw expw_val].
+  - rewrite exec_seq, exec_copy_L.
+    destruct (expw_body_spec W p p1 r nl q a (T 50) (upd h (T 50) (h (U e)))) as [V F];
+      try discriminate; [intros i Hi E; injection E; lia|]. cbv zeta in V, F.
+    split.
+    + rewrite V, upd_same, upd_other by discriminate. reflexivity.
+    + intros l N. rewrite (F l N). apply upd_other. discriminate.
+  - split; [|intros l N]; unf; solve_lazy.
+Qed.
+
+Lemma rm_expw_alias_free : Expw_alias_free rm_expw.
+Proof.
+  intros mg W p p1 r nl h q a e. cbv zeta.
+  destruct (rm_expw_value mg W p p1 r nl h q a e) as [V F]. cbv zeta in V, F.
+  split; [|exact F]. intros g.
+  rewrite V. rewrite (proj1 (rm_expw_value mg W p p1 r nl _ 1 2 3)).
+  cbv [mk4 upd loc_eqb]. cbn [Pos.eqb]. reflexivity.
+Qed.
+
+(* without the copy of the exponent the body is right as long as the exponent is not the destination's own Value *)
+Definition Expw_old_alias_free_partial : Prop :=
+  forall mg W p p1 r nl (h : store) (q a e : positive), e <> q ->
+    let h' := exec (rm_expw_old W mg p p1 r nl (U q) (U a) (U e)) h in
+    h' (U q) = expw_val mg W p p1 r nl (h (U a)) (h (U e)) /\ (forall l, l <> q -> h' (U l) = h (U l)).
+Lemma rm_expw_old_alias_free_partial : Expw_old_alias_free_partial.
+Proof.
+  intros mg W p p1 r nl h q a e N. cbv zeta. destruct mg; cbv [rm_expw_old expw_val].
+  - apply expw_body_spec; try discriminate. intro E. apply N. injection E. trivial.
+  - split; [|intros l N']; unf; solve_lazy.
+Qed.
+
+(* rmint<7,MGA>, p = 1000000007 (p1 = -p^-1 mod 2^128, r = 2^128 mod p), two limbs; base = image of 7, exponent = the
+   Value of the image of 5: exp(x, b, x.Value) leaves 524208557, a separate ruint with the same value 483631076
+   (the two numbers the implementation gave before the repair) *)
+Definition P1e9 : Z := 1000000007.
+Definition P1e9_p1 : Z := 243246641720086491924902560411384511561.
+Definition P1e9_r : Z := 279632277.
+Definition expw_store : store := st [(1%positive, 398161378); (2%positive, 957425932); (3%positive, 398161378)].
+Example rm_expw_old_example :
+  exec (rm_expw_old (2 ^ 128) true P1e9 P1e9_p1 P1e9_r 2 (U 1) (U 2) (U 1)) expw_store (U 1) = 524208557 /\
+  exec (rm_expw_old (2 ^ 128) true P1e9 P1e9_p1 P1e9_r 2 (U 1) (U 2) (U 3)) expw_store (U 1) = 483631076.
+Proof. vm_compute. split; reflexivity. Qed.
+Example rm_expw_new_example :
+  exec (rm_expw (2 ^ 128) true P1e9 P1e9_p1 P1e9_r 2 (U 1) (U 2) (U 1)) expw_store (U 1) = 483631076 /\
+  exec (rm_expw (2 ^ 128) true P1e9 P1e9_p1 P1e9_r 2 (U 1) (U 2) (U 3)) expw_store (U 1) = 483631076 /\
+  expw_val true (2 ^ 128) P1e9 P1e9_p1 P1e9_r 2 957425932 398161378 = 483631076.
+Proof. vm_compute. repeat split; reflexivity. Qed.
+Lemma rm_expw_old_refuted : ~ Expw_alias_free rm_expw_old.
+Proof.
+  intro H.
+  destruct (H true (2 ^ 128) P1e9 P1e9_p1 P1e9_r 2%nat expw_store 1%positive 2%positive 1%positive) as [H1 _].
+  specialize (H1 0). vm_compute in H1. discriminate H1.
+Qed.
+
+
 Lemma rm_pure_exp : forall mg W p p1 r w, Pure_dest (rm_op mg W p p1 r w 8).
 Proof.
   intros mg W p p1 r w h a b c d g. destruct mg.
@@ -114,11 +397,29 @@ Proof.
   - cbv [rm_op rm_exp]. go.
 Qed.
 
+(* op 30 = exp(a, b, const ruint<K>& c): the destination is only written *)
+Lemma rm_pure_expw : forall mg W p p1 r w, Pure_dest (rm_op mg W p p1 r w 30).
+Proof.
+  intros mg W p p1 r w h a b c d g. cbv [rm_op lift3 fresh].
+  rewrite (proj1 (rm_expw_value mg W p p1 r (nlimbs W) h a b c)).
+  rewrite (proj1 (rm_expw_value mg W p p1 r (nlimbs W) _ 1 2 3)).
+  cbv [mk4 upd loc_eqb]. cbn [Pos.eqb]. reflexivity.
+Qed.
+Lemma rm_inplace_expw : forall mg W p p1 r w, Inplace (rm_op mg W p p1 r w 30).
+Proof. intros mg W p p1 r w h a b c d. apply rm_pure_expw. Qed.
+Lemma rm_frame_expw : forall mg W p p1 r w, Frame (rm_op mg W p p1 r w 30).
+Proof.
+  intros mg W p p1 r w h a b c d l N. cbv [rm_op lift3].
+  apply (proj2 (rm_expw_value mg W p p1 r (nlimbs W) h a b c)). exact N.
+Qed.
+
 (* ------------------------------------------------------------------ all operations of rmint
    operation numbers of ModelRm.rm_op:
    0 add 1 sub 2 neg 3 mul 4 square 5 inv 6 div 7 mod 8 exp 9 add_w 10 sub_w 11 mul_w 12 div_w 13 mod_w 14 inv_w   (pure destination)
    15 addin 16 subin 17 negin 18 mulin 19 squarein 20 invin 21 divin 22 modin 23 addmul
-   24 addin_w 25 subin_w 26 mulin_w 27 divin_w 28 modin_w 29.. addmul_w                                               (in place) *)
+   24 addin_w 25 subin_w 26 mulin_w 27 divin_w 28 modin_w 29, 31.. addmul_w                                           (in place)
+   30 exp(a, b, const ruint<K>& c), exponent = the object at the third position: a pure destination (rm_pure_expw), hence
+      also in place *)
 Definition Rm_alias_free (f : nat -> op4) : Prop :=
   (forall n, (n <= 14)%nat -> Pure_dest (f n)) /\
   (forall n, (15 <= n)%nat -> Inplace (f n)) /\
@@ -128,8 +429,9 @@ Lemma rm_alias_free : forall mg W p p1 r w, Rm_alias_free (rm_op mg W p p1 r w).
 Proof.
   intros. split; [|split]; intros n.
   - intros Hn. destruct (Nat.eq_dec n 8) as [->|N]; [apply rm_pure_exp | apply rm_pure_noexp; assumption].
-  - apply rm_inplace.
-  - destruct (Nat.eq_dec n 8) as [->|N]; [apply rm_frame_exp | apply rm_frame_noexp; assumption].
+  - intros Hn. destruct (Nat.eq_dec n 30) as [->|N]; [apply rm_inplace_expw | apply rm_inplace_noexp; assumption].
+  - destruct (Nat.eq_dec n 8) as [->|N]; [apply rm_frame_exp|].
+    destruct (Nat.eq_dec n 30) as [->|N']; [apply rm_frame_expw | apply rm_frame_noexp; assumption].
 Qed.
 (* not vacuous: MGA, W = 2^64, p = 101 (p1 = -101^-1 mod 2^64, r = 2^64 mod 101 = 79): mul(x, x, y) on images of 5 and 7 *)
 Example rm_alias_free_example :
